@@ -10,8 +10,9 @@ CLAIMED = {
  "C12": ("Coq theorems over the executable models of the order / top-N / limit executors: ORDER BY returns a permutation of its input that is sorted on the keys (per-key direction, NULL smallest), LIMIT/OFFSET returns exactly the prescribed slice of the concatenated input for EVERY chunking, top-N equals that slice of the full order. Tied to the code by plan-level correspondence (including 1023..1100-row chunks) and by SQL on both engines over tables built by several inserts, deletes and compaction, with an independent oracle; ORDER BY pk over several row-sets is a known finding.", "DESIGN.md section 5 C12"),
  "C02": ("Coq theorems that the operator models compute what SQL prescribes (WHERE keeps TRUE rows only, inner join = matching pairs, left join pads unmatched rows, comparisons with NULL are NULL, AND/OR truth tables, aggregates skip NULLs, COUNT 0 / NULL on empty input, hash join = nested loop); tied to the code by the shared operator correspondence and, for the reading of standard SQL, by differential testing of generated core-subset queries on both engines against SQLite 3.40 (bags; sequences on ORDER BY keys), optimizer on and off.", "DESIGN.md section 5 C02"),
  "C19": ("Coq theorems over a model of all scalar value types (derived Ord/Eq of DataValue, OrderedFloat for DOUBLE, lexicographic INTERVAL): equality is an equivalence, the order is reflexive / antisymmetric / transitive and consistent with equality, equal values have the same hash representative, SQL `<` is that order, integers and booleans print and parse back (via the standard library's decimal lemmas). Tied to the code by comparing the engine's cmp / == / hash-equality matrices and integer printing over generated value lists with the model inside Coq, an independent check of the laws on the implementation's answers, print-then-parse through the CSV import path, and SQL-level coherence (<, =, ORDER BY, GROUP BY, JOIN, MIN/MAX).", "DESIGN.md section 5 C19"),
+ "C13": ("Coq theorem: for a row-set whose scanned column 0 is the key, sorted with duplicates allowed, the pushed-down key-range scan (start_rowid over the block first keys, per-batch position mask, early end) returns exactly the rows a full scan followed by the predicate returns — for every block partition, batch-size sequence, delete vector and all six bound kinds; the position mask on an unsorted column is refuted (known finding). Tied to the code by building real row-sets in memory with tiny blocks and scanning them through DiskRowset::start_rowid / RowSetIterator with delete vectors and key ranges (start row and visible row ids compared with the model inside Coq), an independent oracle, and SQL WHERE on the key with the optimizer on/off.", "DESIGN.md section 5 C13"),
 }
-HOOK_COMMITS = ["d1a7d6f", "7f91116", "5cff986"]
+HOOK_COMMITS = ["bb8b677", "d1a7d6f", "7f91116", "5cff986"]
 def main():
     props = [json.loads(l) for l in open(os.path.join(V, "properties.jsonl"))]
     extra = json.load(open(os.path.join(V, "tools", "claimed_extra.json"))) if os.path.exists(os.path.join(V, "tools", "claimed_extra.json")) else {}
